@@ -9,7 +9,9 @@ from . import common, prov
 NET = ['rq', 'ac', 'rj', 'pdataDone', 'pdataMore', 'pdataErr', 'rlrq', 'rlrp', 'abort', 'invalid']
 USER = ['rq', 'ac', 'rj', 'msg*0', 'msg*2', 'rlrq', 'rlrp', 'abort']
 ALPHABET = (['n=' + k for k in NET] + ['n=eof', 'n=err', 'n=part', 'n=idle', 'n=idle,t=1', 'n=idle,t=11', 'n=rq+abort', 'n=pdataDone+rlrq', 'n=rlrq+rq', 'n=invalid+abort', 'n=abort+rq']
-            + ['u=' + u for u in USER] + ['u=msg*1,f=1', 'n=rlrq,f=1', 'n=invalid,f=1'])
+            + ['u=' + u for u in USER] + ['u=msg*1,f=1', 'n=rlrq,f=1', 'n=invalid,f=1']
+            # full duplex: a PDU arrives and the local user issues a primitive before the same pass
+            + ['n=pdataDone,u=msg*0', 'n=rlrq,u=msg*1', 'n=rq,u=abort', 'n=pdataMore,u=rlrq', 'n=abort,u=rlrq'])
 
 # prefixes that bring the provider into each protocol state
 BASES = {
